@@ -432,6 +432,8 @@ void EGLPNUM_TYPENAME_ILLlp_basis_init (
 		B->rstat = 0;
 		B->rownorms = 0;
 		B->colnorms = 0;
+		B->rownorms_size = 0;
+		B->colnorms_size = 0;
 		B->nstruct = 0;
 		B->nrows = 0;
 	}
